@@ -114,7 +114,7 @@ class Emitter:
 
     def decl_file(self, node):
         loc = node.get('loc', {})
-        return loc.get('file') or loc.get('includedFrom', {}).get('file') or ''
+        return loc.get('file') or loc.get('expansionLoc', {}).get('file') or node.get('__file') or loc.get('includedFrom', {}).get('file') or ''
 
     def ctor_init(self, ctx, f, ci):
         lw = self.lw
@@ -396,10 +396,27 @@ class Emitter:
 
 
 def index_nodes(lw, objs):
+    # clang's JSON omits "file" when it equals the file of the previously printed location: replay that order
+    state = {'file': None}
+
+    def see(d):
+        if not isinstance(d, dict):
+            return
+        for k in ('spellingLoc', 'expansionLoc'):
+            if k in d:
+                see(d[k])
+        if 'file' in d:
+            state['file'] = d['file']
+
     def walk(n):
         if isinstance(n, dict):
+            see(n.get('loc'))
             if 'id' in n and 'kind' in n and n['kind'].endswith('Decl'):
                 lw.node_by_id.setdefault(n['id'], n)
+                n['__file'] = state['file']
+            r = n.get('range', {})
+            see(r.get('begin'))
+            see(r.get('end'))
             for c in n.get('inner', []) or []:
                 walk(c)
     for o in objs:
